@@ -274,6 +274,14 @@ def _worker(prop: str, tier: str, w: int, nworkers: int, seed: int, budget: int,
     except BaseException as exc:
         result["status"] = "harness_error"
         result["error"] = "".join(traceback.format_exception(exc))
+    try:
+        import sys as _sys
+
+        mod = _sys.modules.get(_load_spec(prop).engine)
+        if mod is not None and hasattr(mod, "cleanup"):
+            mod.cleanup()
+    except Exception:
+        pass
     with open(outpath, "w") as f:
         json.dump(result, f, default=repr)
 
@@ -506,6 +514,8 @@ def main(argv: list[str] | None = None) -> int:
         f"{len(nontrivial)} distinct non-trivial, {len(violations)} violation(s), {wall:.1f}s",
         file=sys.stderr,
     )
+    if hasattr(eng, "cleanup"):
+        eng.cleanup()
     return 1 if violations else 0
 
 
